@@ -1,21 +1,25 @@
 //! module name -> binder
 use crate::common::Obs;
 use crate::gateway::GatewayBinder;
+use crate::token::TokenBinder;
 use serde_json::Value as J;
 
 pub enum B {
     Gateway(GatewayBinder),
+    Token(TokenBinder),
 }
 
 impl B {
     pub fn exec(&mut self, act: &J) -> Obs {
         match self {
             B::Gateway(b) => b.exec(act),
+            B::Token(b) => b.exec(act),
         }
     }
     pub fn project(&mut self) -> J {
         match self {
             B::Gateway(b) => b.project(),
+            B::Token(b) => b.project(),
         }
     }
 }
@@ -23,6 +27,7 @@ impl B {
 pub fn make_binder(module: &str, inst: &J, init: &J) -> B {
     match module {
         "Gateway" => B::Gateway(GatewayBinder::new(inst, init)),
+        "Token" => B::Token(TokenBinder::new(inst, init)),
         m => panic!("unknown module {m}"),
     }
 }
